@@ -9,7 +9,7 @@ From ZV Require Import Base.Bytes Base.Res C23.Dec C23.Model C23.Spec C23.Known.
 Definition obs_item (kv : bytes * bytes) : bytes := fst kv ++ "="%byte :: hex_of_bytes (snd kv).
 Definition obs_fields (a : address) : bytes :=
   tname (a_transport a) ++ "/"%byte :: join [comma] (map obs_item (fields a)).
-Definition err_class (e : aerr) : bytes := match e with EAddress => B "address" | EGuid => B "guid" end.
+(* every error is the observation ERR: which error (Error::Address or Error::InvalidGUID) is not compared *)
 Definition addr_eqb (a b : address) : bool := lbeq (obs_fields a) (obs_fields b).
 
 Definition read_item (it : bytes) : option (bytes * bytes) :=
@@ -40,7 +40,7 @@ Definition run_v (f : bytes) : outp :=
             let s := show a in
             let back := match parse s with
                         | Ok b => B "OK:" ++ obs_fields b ++ B ":" ++ bool_tok (addr_eqb b a)
-                        | Err e => B "ERR:" ++ err_class e
+                        | Err _ => B "ERR"
                         | Panic _ => B "PANIC"
                         end in
             {| o_model := back ++ B ";" ++ hex_of_bytes s;
@@ -69,7 +69,7 @@ Definition run_p (h : bytes) : outp :=
                        let d := show a in
                        B "OK:" ++ obs_fields a ++ B ";" ++ hex_of_bytes d ++ B ";" ++
                        match parse d with Ok b => bool_tok (addr_eqb b a) | _ => B "E" end
-                   | Err e => B "ERR:" ++ err_class e ++ B ";;"
+                   | Err _ => B "ERR;;"
                    | Panic _ => B "PANIC"
                    end in
       match spec_denote s with
